@@ -65,7 +65,9 @@ def atom(op, x, lit):
     kx, kl = x[0], lit[0]
     if kx == 'num' and kl == 'num':
         if x[2] != lit[2]:
-            return None                      # plain number vs quantity / differing units: not pinned
+            if op == '==' and x[2] is not None and lit[2] is not None:
+                return False                 # two quantities in different units are not equal
+            return None                      # plain number vs quantity / order across units: not pinned
         if x[1] != x[1] or lit[1] != lit[1]:
             return None                      # NaN
     if {kx, kl} <= {'num', 'bool'} and kx != kl:
